@@ -4,6 +4,7 @@ import (
 	"fmt"
 	"go/token"
 	"go/types"
+	"sort"
 	"strings"
 
 	"golang.org/x/tools/go/ssa"
@@ -136,17 +137,56 @@ func staticTypeOf(v ssa.Value) types.Type {
 	return v.Type()
 }
 
-// closureArg resolves a call argument to the function literal / function it denotes.
+// closureArg resolves a call argument to the function it denotes: a function literal, a named function, a bound
+// method value (resolved to the method), or the literal returned by a module function that builds the callback.
 func closureArg(v ssa.Value) *ssa.Function {
 	switch x := core.Strip(v).(type) {
 	case *ssa.MakeClosure:
 		f, _ := x.Fn.(*ssa.Function)
+		if f != nil && f.Synthetic != "" {
+			// bound method wrapper: the method it forwards to
+			for _, b := range f.Blocks {
+				for _, in := range b.Instrs {
+					if ci, ok := in.(ssa.CallInstruction); ok {
+						if sc := ci.Common().StaticCallee(); sc != nil {
+							return sc
+						}
+					}
+				}
+			}
+		}
 		return f
 	case *ssa.Function:
 		return x
+	case *ssa.Call:
+		if sc := x.Call.StaticCallee(); sc != nil && len(sc.Blocks) > 0 {
+			var found *ssa.Function
+			n := 0
+			for _, rv := range returnValues(sc) {
+				if f := closureArg(rv); f != nil {
+					found = f
+					n++
+				}
+			}
+			if n >= 1 {
+				return found
+			}
+		}
 	}
 	return nil
 }
+
+// cbParam returns the parameter of an ack.Callback implementation counted from the end of its signature
+// (0 = expired, 1 = stored, 2 = received): a named method used as callback carries its receiver in front.
+func cbParam(cb *ssa.Function, k int) *ssa.Parameter {
+	i := len(cb.Params) - 3 + k
+	if i < 0 || i >= len(cb.Params) {
+		return nil
+	}
+	return cb.Params[i]
+}
+
+func cbParamIdx(cb *ssa.Function, k int) int { return len(cb.Params) - 3 + k }
 
 // enclosingTop returns the outermost declared function enclosing f.
 func enclosingTop(f *ssa.Function) *ssa.Function {
@@ -178,3 +218,7 @@ func fmtPath(p *core.Path, pr *core.Prog) string { return short(p.Describe(pr), 
 var _ = fmt.Sprintf
 
 func stringsContains(a, b string) bool { return strings.Contains(a, b) }
+
+func stringsToLower(s string) string { return strings.ToLower(s) }
+
+func sortStrings(s []string) { sort.Strings(s) }
